@@ -29,6 +29,7 @@ import (
 	"path/filepath"
 	"reflect"
 	"sort"
+	"strconv"
 	"strings"
 
 	jsonpatch "github.com/evanphx/json-patch/v5"
@@ -476,6 +477,7 @@ type run struct {
 	file              string // fixture file (fixture / kubeinject)
 	l                 *loaded
 	reqNS             string
+	rerunCron         func() *run        // CronJob through kube-inject: the same pod with its annotations ALSO on jobTemplate.metadata
 	decMeta           *metav1.ObjectMeta // kube-inject: the metadata of the pods per the documented rule (pod template), when it differs from orig
 	via               string             // kube-inject: direct | file | injector
 	orig, once, twice *corev1.Pod
@@ -953,7 +955,7 @@ func runKubeInject(settingName, file string, doc int) *run {
 	return runKubeInjectObject(settingName, obj)
 }
 
-var wrapKinds = []string{"pod", "deployment", "statefulset", "daemonset", "job", "cronjob", "replicaset", "replicationcontroller", "deploymentconfig", "list"}
+var wrapKinds = []string{"pod", "deployment", "statefulset", "daemonset", "job", "cronjob", "replicaset", "replicationcontroller", "deploymentconfig", "list", "list3"}
 
 // wrapPod puts a generated pod into a workload object of the given kind in namespace wlNS.
 func wrapPod(wrap, wlNS string, pod *corev1.Pod) runtime.Object {
@@ -985,6 +987,17 @@ func wrapPod(wrap, wlNS string, pod *corev1.Pod) runtime.Object {
 	case "deploymentconfig":
 		return &openshiftv1.DeploymentConfig{TypeMeta: metav1.TypeMeta{Kind: "DeploymentConfig", APIVersion: "apps.openshift.io/v1"}, ObjectMeta: om,
 			Spec: openshiftv1.DeploymentConfigSpec{Template: &tmpl}}
+	case "list3":
+		// a List as users write them: an item of a kind the injector does not know, a workload that says "never" (it has to
+		// come back unchanged) and, LAST, the workload under observation
+		foo := []byte(`{"apiVersion":"example.com/v1","kind":"Foo","metadata":{"name":"foo"},"spec":{"x":1}}`)
+		decoyT := *tmpl.DeepCopy()
+		decoyT.Labels = map[string]string{"sidecar.istio.io/inject": "false", "app": "decoy"}
+		decoy, _ := json.Marshal(&appsv1.Deployment{TypeMeta: metav1.TypeMeta{Kind: "Deployment", APIVersion: "apps/v1"},
+			ObjectMeta: metav1.ObjectMeta{Name: "decoy", Namespace: wlNS}, Spec: appsv1.DeploymentSpec{Template: decoyT}})
+		d := &appsv1.StatefulSet{TypeMeta: metav1.TypeMeta{Kind: "StatefulSet", APIVersion: "apps/v1"}, ObjectMeta: om, Spec: appsv1.StatefulSetSpec{Template: tmpl}}
+		raw, _ := json.Marshal(d)
+		return &corev1.List{TypeMeta: metav1.TypeMeta{Kind: "List", APIVersion: "v1"}, Items: []runtime.RawExtension{{Raw: foo}, {Raw: decoy}, {Raw: raw}}}
 	case "list":
 		d := &appsv1.StatefulSet{TypeMeta: metav1.TypeMeta{Kind: "StatefulSet", APIVersion: "apps/v1"}, ObjectMeta: om, Spec: appsv1.StatefulSetSpec{Template: tmpl}}
 		raw, _ := json.Marshal(d)
@@ -1001,11 +1014,26 @@ func runKubeInjectPod(settingName, wrap, wlNS string, pod *corev1.Pod) *run {
 	if i := strings.Index(wrap, "@"); i >= 0 {
 		kind, via = wrap[:i], wrap[i+1:]
 	}
-	obj := wrapPod(kind, wlNS, pod)
+	obj := wrapPod(kind, wlNS, pod.DeepCopy())
 	if obj == nil {
 		return &run{status: "unloadable", detail: "unknown wrap " + wrap}
 	}
-	return runKubeInjectObjectVia(settingName, obj, via)
+	r := runKubeInjectObjectVia(settingName, obj, via)
+	if kind == "cronjob" && len(pod.Annotations) > 0 {
+		// known finding F10n is keyed by its CAUSE: kube-inject reads (and writes) spec.jobTemplate.metadata of a CronJob,
+		// not the metadata of the pod template. The same pod with its annotations also where the code reads them:
+		r.rerunCron = func() *run {
+			o2 := wrapPod(kind, wlNS, pod.DeepCopy()).(*batchv1.CronJob)
+			o2.Spec.JobTemplate.ObjectMeta.Annotations = map[string]string{}
+			for k, v := range pod.Annotations {
+				o2.Spec.JobTemplate.ObjectMeta.Annotations[k] = v
+			}
+			r2 := runKubeInjectObjectVia(settingName, o2, via)
+			r2.kind = "kubeinject"
+			return r2
+		}
+	}
+	return r
 }
 
 // podTemplateRef: the metadata and spec of the pods of a workload object (the documented place for labels / annotations).
@@ -1108,14 +1136,59 @@ func unwrapList(obj runtime.Object) runtime.Object {
 	if !ok || len(l.Items) == 0 {
 		return obj
 	}
-	if o, ok := l.Items[0].Object.(runtime.Object); ok && o != nil {
+	it := l.Items[len(l.Items)-1]
+	if o, ok := it.Object.(runtime.Object); ok && o != nil {
 		return o
 	}
-	o, err := inject.FromRawToObject(l.Items[0].Raw)
+	o, err := inject.FromRawToObject(it.Raw)
 	if err != nil {
 		return obj
 	}
 	return o
+}
+
+// otherItems: the items of a List before the last, as canonical JSON (they have to come back unchanged: an item of an
+// unknown kind, a workload that says "never").
+func otherItems(obj runtime.Object) []string {
+	l, ok := obj.(*corev1.List)
+	if !ok {
+		return nil
+	}
+	var out []string
+	for _, it := range l.Items[:max(0, len(l.Items)-1)] {
+		var v any
+		raw := it.Raw
+		if o, ok := it.Object.(runtime.Object); ok && o != nil {
+			raw, _ = json.Marshal(o)
+		}
+		if json.Unmarshal(raw, &v) != nil {
+			out = append(out, string(raw))
+			continue
+		}
+		dropEmpty(v)
+		b, _ := json.Marshal(v)
+		out = append(out, string(b))
+	}
+	return out
+}
+
+// dropEmpty removes the zero-valued fields typed (un)marshalling adds (status: {}, creationTimestamp: null, strategy: {}, ...).
+func dropEmpty(v any) bool {
+	switch x := v.(type) {
+	case map[string]any:
+		for k, e := range x {
+			if e == nil || dropEmpty(e) {
+				delete(x, k)
+			}
+		}
+		return len(x) == 0
+	case []any:
+		for _, e := range x {
+			dropEmpty(e)
+		}
+		return false
+	}
+	return false
 }
 
 // podTemplateMeta: the metadata the pods of the workload will carry (documented rule), where that is not what templateOf
@@ -1126,6 +1199,18 @@ func podTemplateMeta(obj runtime.Object) *metav1.ObjectMeta {
 		return m
 	}
 	return nil
+}
+
+const unknownDoc = "apiVersion: example.com/v1\nkind: Foo\nmetadata:\n  name: foo\nspec:\n  x: 1"
+
+func splitDocs(s string) []string {
+	var out []string
+	for _, d := range strings.Split(s, "\n---") {
+		if strings.TrimSpace(d) != "" {
+			out = append(out, strings.TrimSpace(d))
+		}
+	}
+	return out
 }
 
 // whInjector is an inject.Injector that asks the webhook of the same configuration, as `istioctl kube-inject` does with a
@@ -1189,11 +1274,19 @@ func runKubeInjectObjectVia(settingName string, obj runtime.Object, via string) 
 				return nil, err
 			}
 			var buf bytes.Buffer
+			y = append([]byte(unknownDoc+"\n---\n"), y...) // a multi-document file whose first document is of an unknown kind
 			if err := inject.IntoResourceFile(nil, wc.Templates, wc.Values, "", wc.MeshConfig, bytes.NewReader(y), &buf, func(string) {}); err != nil {
 				return nil, err
 			}
-			doc := strings.TrimSuffix(strings.TrimSpace(buf.String()), "---")
-			return inject.FromRawToObject([]byte(doc))
+			docs := splitDocs(buf.String())
+			if len(docs) != 2 {
+				return nil, fmt.Errorf("IntoResourceFile wrote %d documents for 2", len(docs))
+			}
+			var a, b any
+			if yaml.Unmarshal([]byte(docs[0]), &a) != nil || yaml.Unmarshal([]byte(unknownDoc), &b) != nil || !reflect.DeepEqual(a, b) {
+				return nil, fmt.Errorf("IntoResourceFile changed a document of a kind it does not know")
+			}
+			return inject.FromRawToObject([]byte(docs[1]))
 		}
 		out, err := inject.IntoObject(injector, wc.Templates, wc.Values, "", wc.MeshConfig, in, func(string) {})
 		if err != nil {
@@ -1220,9 +1313,17 @@ func runKubeInjectObjectVia(settingName string, obj runtime.Object, via string) 
 		r.status, r.detail = "unloadable", "no pod template"
 		return r
 	}
+	others := otherItems(obj)
 	o1, err := into(obj)
 	if err != nil {
 		r.status, r.detail = "error", err.Error()
+		if strings.Contains(err.Error(), "IntoResourceFile ") {
+			r.status = "bad-patch"
+		}
+		return r
+	}
+	if got := otherItems(o1); !reflect.DeepEqual(got, others) {
+		r.status, r.detail = "bad-patch", "kube-inject changed a List item that is of an unknown kind or says never"
 		return r
 	}
 	r.once, r.onceJSON = norm(o1)
@@ -1324,7 +1425,8 @@ func execInject(in, out string) {
 			writeDecisionInputs(o, decisionInputs(r))
 			o.Line("refusal", refusalExpectation(r))
 			o.Line("feat", wire.EncList(features_(r)))
-			o.Line("row", callSite(r, toks[0]), fmt.Sprint(abstractRowOf(decisionInputs(r)).idx()))
+			_, clause := documentedConcrete(decisionInputs(r))
+			o.Line("row", callSite(r, toks[0]), fmt.Sprint(abstractRowOf(decisionInputs(r)).idx()), clause)
 		}
 		if r.orig != nil && r.status != "unloadable" {
 			writePod(o, "orig", r.orig)
@@ -1417,6 +1519,31 @@ func features_(r *run) []string {
 	add(p.Annotations["proxy.istio.io/config"] != "", "proxy-config-annotation")
 	add(p.Labels["topology.istio.io/network"] != "", "network-label")
 	add(p.Spec.HostNetwork, "hostNetwork")
+	add(len(p.Spec.EphemeralContainers) > 0, "ephemeral-containers")
+	add(len(p.Spec.Containers) > 3, "more-than-3-containers")
+	for _, c := range all {
+		add(c.Name == inject.EnableCoreDumpName || c.Name == inject.ValidationContainerName, "user-container-of-reserved-name")
+	}
+	for _, v := range p.Spec.Volumes {
+		add(v.Projected != nil, "volume-projected")
+		add(v.PersistentVolumeClaim != nil, "volume-pvc")
+		add(v.HostPath != nil, "volume-hostPath")
+		add(v.DownwardAPI != nil, "volume-downwardAPI")
+		add(v.ConfigMap != nil, "volume-configMap")
+		add(v.Secret != nil, "volume-secret")
+		add(v.EmptyDir != nil, "volume-emptyDir")
+	}
+	if nv, ok := p.Annotations["sidecar.istio.io/nativeSidecar"]; ok {
+		add(nv != "true" && nv != "false", "nativeSidecar-annotation-other-value")
+	}
+	if r.status == "injected" {
+		t := strings.ReplaceAll(strings.ReplaceAll(p.Annotations["inject.istio.io/templates"], " ", ""), ",", "+")
+		if t == "" {
+			t = "(default)"
+		}
+		f = append(f, "injected-with-template:"+t)
+	}
+	f = dedupe(f)
 	add(r.l != nil && r.l.native, "native-mode")
 	add(r.l != nil && r.l.mux != nil, "http-handler")
 	add(r.l != nil && r.l.path != "", "inject-url-path")
@@ -1436,6 +1563,18 @@ func features_(r *run) []string {
 	}
 	sort.Strings(f)
 	return f
+}
+
+func dedupe(l []string) []string {
+	seen := map[string]bool{}
+	var out []string
+	for _, x := range l {
+		if !seen[x] {
+			seen[x] = true
+			out = append(out, x)
+		}
+	}
+	return out
 }
 
 func truncate(s string, n int) string {
@@ -1571,6 +1710,11 @@ func refusalExpectation(r *run) string {
 					return "must"
 				}
 			}
+		}
+	}
+	if p, ok := r.orig.Annotations["prometheus.io/port"]; ok {
+		if n, err := strconv.Atoi(p); err != nil || n < 0 || n > 65535 {
+			return "may" // documented as a port number: anything else may be refused
 		}
 	}
 	if r.orig.Annotations["prometheus.io/port"] == "15020" {
@@ -1733,6 +1877,17 @@ func statusContent(orig, after *corev1.Pod) string {
 }
 
 func verdictOf(r *run) string {
+	v := verdictOf1(r)
+	if strings.HasPrefix(v, "FAIL ") && r.rerunCron != nil && !strings.HasPrefix(v, "FAIL decision-") && !strings.HasPrefix(v, "FAIL unloadable") {
+		if v2 := verdictOf1(r.rerunCron()); strings.HasPrefix(v2, "OK ") || strings.HasPrefix(v2, "FAIL idempotent-") {
+			// the failure disappears when the pod template's annotations are also on jobTemplate.metadata: known finding F10n
+			return "FAIL cronjob-pod-template-annotations-ignored " + wire.Enc(strings.Fields(v)[1])
+		}
+	}
+	return v
+}
+
+func verdictOf1(r *run) string {
 	switch r.status {
 	case "unloadable":
 		// a configuration or an input of the check that does not load is a broken tie, never a pass
@@ -1778,6 +1933,18 @@ func verdictOf(r *run) string {
 	}
 	if v := preserved("preserve-twice", r.orig, r.twice); v != "" {
 		return v
+	}
+	for _, p := range []*corev1.Pod{r.once, r.twice} {
+		seen := map[string]bool{}
+		for _, c := range append(append([]corev1.Container{}, p.Spec.Containers...), p.Spec.InitContainers...) {
+			if seen[c.Name] {
+				return "FAIL duplicate-container-name " + wire.Enc(c.Name)
+			}
+			seen[c.Name] = true
+		}
+		if !reflect.DeepEqual(p.Spec.EphemeralContainers, r.orig.Spec.EphemeralContainers) {
+			return "FAIL preserve-ephemeral " + wire.Enc("ephemeral containers changed")
+		}
 	}
 	if so := statusOf(r.orig); so == nil || len(so.Containers)+len(so.InitContainers)+len(so.Volumes) == 0 {
 		if v := statusContent(r.orig, r.once); v != "" {
